@@ -16,10 +16,12 @@ ENGINE = "dispatch"
 LEAN_MODULES = ["RtoscModel.Props.C04"]
 THEOREMS = [
     "Rtosc.Ports.dispatch_linear_iff",
+    "Rtosc.Ports.dispatch_loc_iff",
     "Rtosc.Ports.dispatch_unique",
     "Rtosc.Ports.hashed_sound",
     "Rtosc.Ports.hashed_complete",
     "Rtosc.Ports.generate_establishes_HashOK",
+    "Rtosc.Ports.real_MkOK",
     "Rtosc.Ports.loc_independent",
     "Rtosc.Ports.loc_restored",
     "Rtosc.Ports.loc_full_address",
@@ -27,16 +29,22 @@ THEOREMS = [
     "Rtosc.Ports.port_pointer_own",
     "Rtosc.Ports.obj_handed_down",
     "Rtosc.Ports.loc_in_bounds",
+    "Rtosc.Ports.mkMsg_msgBuf",
+    "Rtosc.Ports.cachedMk_eq",
+    "Rtosc.Ports.posLoop_fuel",
     "Rtosc.Ports.hard_match_prefix_counterexample",
     "Rtosc.Ports.hash_collision_counterexample",
     "Rtosc.Ports.inner_slash_counterexample",
     "Rtosc.Ports.default_handler_counterexample",
 ]
 HARNESS = {"src": ["dispatch.cpp"], "deps": ["common.h"]}
+# Ports::dispatch, Port_Matcher, generate_minimal_hash, ClonePorts / MergePorts: the library's objects are linked
 RULE = ("port trees are generated per the quantifier: 1..24 names per table over {a,b,c} (shared prefixes, equal lengths, "
         "anagrams; a small share with digits / other letters), with and without ':types', with '#N' (also 'name#N/' "
-        "sub-tree ports), multi-component leaf names, trailing-'/' leaves, duplicate keys with different types, nesting "
-        "1..3, every table with or without default handler; for each tree the addresses are derived from it: the exact "
+        "sub-tree ports), multi-component leaf names, trailing-'/' leaves, duplicate keys with different types, a second "
+        "port matching the same messages as a sub-tree port, nesting 1..3, every table with or without default handler, "
+        "about a third of the tables with pairwise different names built through the library's ClonePorts / MergePorts "
+        "constructors; for each tree the addresses are derived from it: the exact "
         "address of a root-to-leaf chain, one character appended / removed / changed, index N-1 / N / N+1 and leading "
         "zeros, a '/' removed / added / doubled, continuation behind a leaf, a prefix that stops at a sub-tree; x type "
         "strings: each alternative, extensions, unrelated, empty; base dispatch with leading '/', a share of non-base "
@@ -110,7 +118,8 @@ def table_token(t):
             es.append("L" + hx(render(name)))
         else:
             es.append("N" + hx(render(name)) + table_token(child))
-    return "T%d[%s]" % (1 if t["dflt"] else 0, ",".join(es))
+    # "c" / "m": the harness builds the table through ClonePorts / MergePorts (same table for the model)
+    return "T%d%s[%s]" % (1 if t["dflt"] else 0, t.get("mode", ""), ",".join(es))
 
 
 def name_tok(p):
@@ -431,6 +440,14 @@ def gen_table(rng, depth, nmax, opts):
         elif rng.random() < 0.12:
             sub = True                                # leaf that accepts any continuation
         ports.append(((segs, sub, types), child))
+        if child is not None and rng.random() < 0.3:
+            # a second port that matches the same messages as the sub-tree port: a leaf with the same
+            # name, or a leaf whose name continues into the sub-tree (both ports must be invoked)
+            if rng.random() < 0.5:
+                ports.append(((list(segs), True, None), None))
+            elif all(k == "L" for k, _ in segs):
+                ports.append(((list(segs[:-1]) + [("L", segs[-1][1] + b"/" + rand_word(rng, alph, [1, 2]))],
+                              rng.random() < 0.3, None), None))
     # duplicate keys with different types; rarely an exact duplicate
     if opts.get("types") and ports and rng.random() < 0.25:
         (segs, sub, types), child = rng.choice(ports)
@@ -438,7 +455,12 @@ def gen_table(rng, depth, nmax, opts):
             nt = [bytes([rng.choice(TAG_CH)])] if rng.random() < 0.9 else types
             ports.insert(rng.randrange(len(ports) + 1), ((list(segs), sub, nt), None))
     rng.shuffle(ports)
-    return {"dflt": rng.random() < opts.get("pdflt", 0.4), "ports": ports}
+    t = {"dflt": rng.random() < opts.get("pdflt", 0.4), "ports": ports}
+    # ClonePorts looks ports up by name and MergePorts drops repeated names: only for pairwise different names
+    rendered = [render(nm) for nm, _ in ports]
+    if len(set(rendered)) == len(rendered) and len(ports) <= 30 and rng.random() < 0.3:
+        t["mode"] = rng.choice(["c", "m"])
+    return t
 
 
 def fmt_index(rng, v):
@@ -607,8 +629,8 @@ def op_line(rng, t, nmsg, stats):
 
 
 def generate(rng, tier, stats):
-    ntab = 1800 if tier == "quick" else 30000
-    stats.update({"tables": 0, "size": {}, "depth": {}, "dflt": 0, "msg_kind": {}, "tag_kind": {},
+    ntab = 7000 if tier == "quick" else 120000
+    stats.update({"via_clone_or_merge": 0, "tables": 0, "size": {}, "depth": {}, "dflt": 0, "msg_kind": {}, "tag_kind": {},
                   "with_enum": 0, "with_multi": 0, "with_types": 0, "hashable_tables": 0, "all_tables": 0, "messages": 0})
     ops = []
     for k in range(ntab):
@@ -627,6 +649,7 @@ def generate(rng, tier, stats):
         stats["depth"][d] = stats["depth"].get(d, 0) + 1
         tabs = tree_tables(t)
         stats["dflt"] += sum(1 for x in tabs if x["dflt"])
+        stats["via_clone_or_merge"] += sum(1 for x in tabs if x.get("mode"))
         stats["all_tables"] += len(tabs)
         stats["hashable_tables"] += sum(1 for x in tabs if hashable(x))
         tok = table_token(t)
